@@ -459,6 +459,9 @@ func (t *Trie) updateRefCount(h util.Uint256, key []byte, index uint32) int32 {
 		var err error
 		data, err = getFromStore(key, t.mode, t.Store)
 		if err == nil {
+			// The slice belongs to the store (probably to some lower layer of it), while
+			// it is modified below.
+			data = bytes.Clone(data)
 			cnt = int32(binary.LittleEndian.Uint32(data[len(data)-4:]))
 		}
 	}
@@ -529,7 +532,7 @@ func (t *Trie) getFromStore(h util.Uint256) (Node, error) {
 	}
 
 	if t.mode.RC() {
-		data = data[:len(data)-5]
+		data = data[: len(data)-5 : len(data)-5] // Cap is limited to avoid modification of store's data on append.
 		node := t.refcount[h]
 		if node != nil {
 			node.bytes = data
